@@ -110,7 +110,7 @@ class C14(World):
     def draw_requests(self):
         from ofxtools.Client import StmtRq, CcStmtRq, InvStmtRq, StmtEndRq, CcStmtEndRq
         ch = self.ch
-        n = ch.geometric("rq.n", 2, 9)
+        n = ch.geometric("rq.n", 2, 24)
         out = []
         d0 = datetime.datetime(2020, 1, 1, tzinfo=UTC)
         for i in range(n):
@@ -164,9 +164,15 @@ class C14(World):
             kw["dryrun"] = True
         elif mode == "skip":
             kw["skip_profile"] = True
+        ch = self.ch
+        if ch.flag("op.nonewfileuid", 0.15):
+            kw["gen_newfileuid"] = False
+        if ch.flag("op.timeout", 0.15):
+            kw["timeout"] = [5.0, 0.5, 30][ch.pick("op.timeout.v", 3)]
         try:
             if kind == "profile":
-                out = c.request_profile(dryrun=(mode == "dryrun"))
+                pk = {k: v for k, v in kw.items() if k in ("gen_newfileuid", "timeout")}
+                out = c.request_profile(dryrun=(mode == "dryrun"), **pk)
             elif kind == "statements":
                 out = c.request_statements(slot.password, *reqs, **kw)
             elif kind == "accounts":
@@ -425,6 +431,9 @@ class C14(World):
                 kind, mode, reqs = self.draw_op()
                 op = self.do_op(live[slot.n], kind, mode, reqs)
                 self.judge_op(op)
+                if ch.flag("op.repeat", 0.12):         # the very same call once more
+                    op = self.do_op(live[slot.n], kind, mode, reqs)
+                    self.judge_op(op)
         else:
             n_tasks = 2 + ch.pick("conc.tasks", 2)
             plans = []
